@@ -273,7 +273,7 @@ while i < len(lines):
         corpus = os.path.join(VERIF, 'replay', 'corpus', 'C01.cases')
         if os.path.exists(corpus):
             cases += [l.strip() for l in open(corpus) if l.strip() and not l.startswith('#')]
-        n = int(os.environ.get('C01_N', '0')) or (200 if tier == 'quick' else 6000)
+        n = int(os.environ.get('C01_N', '0')) or (100 if tier == 'quick' else 6000)
         for _ in range(n):
             cases.append(gen_prog(rng))
         return cases + gen_spin(tier, rng)
